@@ -36,9 +36,9 @@ CLAIMED = {
         design='DESIGN.md §6 C20',
         technique='Lean 4 proof (real analysis for monotonicity, power-series / Gamma-mixture PSD argument, table lemmas over the C04/C12/C15 models) + bit-exact correspondence'),
     "C01": dict(
-        text=("Kernel-checked theorems about the executable model of solve / solve_sys / invert_matrix / Matrix::solve / Matrix::inv: the layout conversions are transposes and mutually inverse; column c of a multi-RHS solve equals the single-RHS solve of column c with one route chosen for all columns; inverse = solve against the identity; Matrix::solve never routes (always LU); the slice solvers take the Cholesky route iff the matrix is exactly symmetric, passes the (ordered-field characterised) positive-diagonal/symmetry predicate and every pivot is positive, otherwise LU; forward and backward substitution return x with T.x = b over any field reading only the relevant triangle. PARTIAL: P.A = L.U, L.L^T = A, luSolve's spec and the floating-point residual bound are not proved; they are decided per run by the bit-exact tie on all six entry points (orders 1..32, all matrix classes of the quantifier, 1..6 right-hand sides) plus an exact big-integer residual oracle ||A X - B|| <= 200 n eps (||A|| ||X|| + ||B||), A.A^-1 = I, and route/entry-point agreement scaled by the condition number."),
+        text=('Kernel-checked theorems about the executable model of solve / solve_sys / invert_matrix / Matrix::solve / Matrix::inv, over any linearly ordered field (and over R with Real.sqrt): END-TO-END CORRECTNESS in exact arithmetic - whenever `solve a b` answers, A.x = b (Cholesky route: L.L^T = A and two triangular solves; LU route: P.A = L.U for every input and luSolve solves); on every non-singular input of order n >= 1 solve / solve_sys / invert_matrix never panic and return A^-1 b resp. A^-1 (Mathlib Matrix inverse), A.inv = I and inv.A = I; ROUTE INDEPENDENCE: any two valid routes return the same x; routing = Cholesky iff exactly symmetric with positive diagonal and all pivots positive, else LU, and every exactly symmetric positive-definite matrix is routed to Cholesky and factored; multi-RHS column c = single-RHS solve of column c with one route for all; inverse = solve against the identity; Matrix::solve / inv always use LU and are correct; layout conversions are mutually inverse transposes; forward/backward substitution solve T.x = b. ROUNDING (standard model fl(a op b) = (a op b)(1+d), |d| <= 2^-53, the one trusted link to IEEE arithmetic): backward-error bounds (T+dT)x = b, |dT| <= gamma_n|T| for both substitutions and the Cholesky solve for every n. Not proved: backward error of the LU / Cholesky factorisations themselves, hence the end-to-end floating-point residual bound, which is decided per run by the bit-exact tie on all six entry points (orders 1..32, all matrix classes incl. adversarial-pivot and sparse-SPD classes, 1..6 right-hand sides) plus an exact big-integer residual oracle ||A X - B|| <= 200 n eps (||A|| ||X|| + ||B||), A.A^-1 = I, and route/entry-point agreement.'),
         design='DESIGN.md §6 C01',
-        technique='Lean 4 proof (routing/column/substitution theorems over fields) + bit-exact correspondence + exact residual oracle'),
+        technique='Lean 4 proof (loop invariants for LU and Cholesky, P.A = L.U, L.L^T = A, solve correctness and totality via Mathlib Matrix, standard-model rounding bounds) + bit-exact correspondence + exact residual oracle'),
     "C03": dict(
         text=("Kernel-checked theorems: inverse-CDF laws over R for Exponential, Pareto, Gumbel, Uniform (F(sample u) = u or 1-u for every u in (0,1)) and Bernoulli; exact characterisations of the Poisson multiplication method (returns k iff the running product of uniforms first drops to e^-lambda at k) and of binomial inversion (walks C(n,x)p^x q^(n-x), returns the generalised inverse CDF, result <= n, for every n); textbook compositions (ChiSquared = Gamma(k/2, 1/2), Beta = X/(X+Y) in draw order incl. the underflow branch, T formula, MVN = mu + L z via the C05 product theorem, binomial flip, regime routing, Gamma boost below shape 1); support and shape (Pareto >= x_m, Exponential >= 0, Uniform in [a,b], Gamma > 0, counts >= 0, sample_n length and consecutive draws, sample_matrix / MVN shapes); the three 128-entry Ziggurat tables regenerated from the source are exactly consistent (K, Y, W, R relations in rational arithmetic), so editing one entry breaks a proof. PARTIAL: the laws of the rejection samplers (Ziggurat, Marsaglia-Tsang and hence beta/chi-squared/t, PTRS, BTPE), loop termination and RNG quality are not provable here; they are decided by the bit-exact tie of 2000-draw streams + final RNG state for every distribution x regime x seed and by the property's own DKW criterion (alpha = 1e-12, n = 2e5 quick / 4e6 thorough) against scipy CDFs. Two open findings are listed in known_findings.txt."),
         design='DESIGN.md §6 C03',
@@ -52,15 +52,15 @@ CLAIMED = {
         design='DESIGN.md §6 C10',
         technique='Lean 4 proof (loop-to-iterate refinement, LM descent invariant, chain rule over commutative rings) + bit-exact trajectory correspondence'),
     "C11": dict(
-        text=("Kernel-checked theorems about the models of lu / cholesky / substitutions / det (slice level and Matrix level): whenever cholesky returns a factor it is lower triangular with a positive diagonal, and the sweep rejects exactly at a diagonal cell whose pivot is <= 0 (non-symmetric input panics); for every input the LU pivot vector is a permutation of 0..n-1; the Matrix-level lu, lu_solve, cholesky and substitutions equal the slice-level ones; det = parity x product of U's diagonal; ipiv_parity equals the inversion-count sign for all 873 permutation vectors of size <= 6 (a finite kernel check, labelled as such; the legacy loop is proved wrong on [1,2,3,0]); triangular solves invert triangular systems (C01). PARTIAL: P.A = L.U, L.L^T = A, |l_ij| <= 1 and parity for larger sizes are not proved; they are decided per run by the bit-exact tie and exact big-integer oracles (||PA - LU||, ||LL^T - A|| within c n eps ||A||, |L| <= 1, permutation, exact determinants of integer matrices by Bareiss, indefinite input rejected, Matrix = slice bit for bit)."),
+        text=("Kernel-checked theorems about the models of lu / cholesky / substitutions / det (slice level and Matrix level): CHOLESKY - whenever cholesky returns l it is lower triangular with positive diagonal and L.L^T = A; every exactly symmetric positive-definite matrix is factored (completeness, uniqueness of the factor); the sweep rejects exactly at a diagonal cell whose pivot is <= 0 and non-symmetric input panics; LU - for EVERY square input over an ordered field the pivot vector is a permutation, P.A = L.U (with the exact residual identity and the necessary-and-sufficient condition over general fields), every multiplier satisfies |l_ij| <= 1 and is 0 under a zero pivot; prod diag U = det(P.A), pivots all non-zero iff det != 0; DETERMINANT - ipiv_parity returns Mathlib's Equiv.Perm.sign of the pivot permutation for every size (never diverges, panics exactly on non-permutations), so det = sign . prod diag U; Matrix-level lu, lu_solve, cholesky, substitutions equal the slice-level ones; triangular solves invert triangular systems. Not proved: floating-point rounding of the reconstruction residuals - decided per run by the bit-exact tie and exact big-integer oracles (||PA - LU||, ||LL^T - A|| within c n eps ||A||, |L| <= 1, permutation, exact determinants of integer matrices by Bareiss, indefinite input rejected, Matrix = slice bit for bit)."),
         design='DESIGN.md §6 C11',
-        technique='Lean 4 proof (loop invariants for pivot permutation / Cholesky shape, decide +kernel for parity) + bit-exact correspondence + exact reconstruction oracle'),
+        technique='Lean 4 proof (column-loop invariant for P.A = L.U, Cholesky sweep invariant, cycle-shortening invariant for parity = Equiv.Perm.sign) + bit-exact correspondence + exact reconstruction oracle'),
     "C13": dict(
-        text=('Kernel-checked theorems over an ordered field: acovf/acf equal the biased-estimator sums, are even in the lag (for any scalar type), acf(0) = 1 for non-zero variance, |acf k| <= 1 (Cauchy-Schwarz), lags |k| >= n give 0; difference o cumsum; AR fit: intercept = mean and, given an exact inverse of the Toeplitz matrix, the coefficients satisfy the Yule-Walker equations; predict_one / predict equal mean + the AR recursion on the mean-centred history for every history length; fit and forecasts are shift-equivariant (series + c gives every forecast + c). PARTIAL: exactness of invert_matrix is a hypothesis (C01), convergence of forecasts to the mean and rounding are decided by the bit-exact tie plus exact-integer / 240-bit mpmath oracles with a-priori rounding bounds, paired shifted runs and a horizon-1000 convergence check.'),
+        text=('Kernel-checked theorems over an ordered field: acovf/acf equal the biased-estimator sums, are even in the lag (for any scalar type), acf(0) = 1 for non-zero variance, |acf k| <= 1 (Cauchy-Schwarz), lags |k| >= n give 0; difference o cumsum; AR fit: intercept = mean and, given an exact inverse of the Toeplitz matrix, the coefficients satisfy the Yule-Walker equations; predict_one / predict equal mean + the AR recursion on the mean-centred history for every history length; fit and forecasts are shift-equivariant (series + c gives every forecast + c). With the proved solver correctness the Yule-Walker statement holds unconditionally for a non-singular Toeplitz matrix. PARTIAL: convergence of forecasts to the mean and rounding are decided by the bit-exact tie plus exact-integer / 240-bit mpmath oracles with a-priori rounding bounds, paired shifted runs and a horizon-1000 convergence check.'),
         design='DESIGN.md §6 C13',
         technique='Lean 4 proof (finite-sum algebra, Cauchy-Schwarz, recursion by induction over the horizon) + bit-exact correspondence'),
     "C14": dict(
-        text=("Kernel-checked theorems over any (ordered) field: predict is Horner = sum c_i x^i for every coefficient list; vandermonde entry V[i,j] = x_i^j; given an exact inverse of V^T V the fitted coefficients satisfy the normal equations, i.e. the residual is orthogonal to every power x^0..x^d; rss c' = rss c + ||V(c' - c)||^2 >= rss c for every other c' (minimality); data generated by a polynomial of the degree are reproduced. PARTIAL: exactness of invert_matrix is a hypothesis (C01); rounding is decided by the bit-exact tie plus an exact-rational oracle (orthogonality residual scaled by cond(V^T V) eps, perturbation test, exact-integer reproduction)."),
+        text=("Kernel-checked theorems over any (ordered) field: predict is Horner = sum c_i x^i for every coefficient list; vandermonde entry V[i,j] = x_i^j; given an exact inverse of V^T V the fitted coefficients satisfy the normal equations, i.e. the residual is orthogonal to every power x^0..x^d; rss c' = rss c + ||V(c' - c)||^2 >= rss c for every other c' (minimality); data generated by a polynomial of the degree are reproduced. With the proved solver correctness these hold unconditionally (and `fit` does not panic) whenever the normal matrix is non-singular. PARTIAL: rounding is decided by the bit-exact tie plus an exact-rational oracle (orthogonality residual scaled by cond(V^T V) eps, perturbation test, exact-integer reproduction)."),
         design='DESIGN.md §6 C14',
         technique='Lean 4 proof (normal equations and Pythagoras over fields via Mathlib Matrix) + bit-exact correspondence + exact-rational oracle'),
     "C04": dict(
@@ -71,7 +71,7 @@ CLAIMED = {
               "to call the kernel generated from its own operator token with arguments in order (self, other), the right shape source and (for matrix compound "
               "assignment) a shape assert, so each operator form computes the scalar op at each position with shape preserved; reductions in exact arithmetic: "
               "sum8 = sum, dot8 = sum of products, prod, norm = sqrt(sum x^2), max, inf_norm, logsumexp = log sum exp x_i and logmeanexp over R with all shifted "
-              "exponents <= 0 and 1 <= sum exp(x_i - m) <= n (no overflow at any magnitude). Tied bit for bit to the Rust code on all lengths 0..40 and random lengths "
+              "exponents <= 0 and 1 <= sum exp(x_i - m) <= n (no overflow at any magnitude); WORST-CASE ROUNDING BOUNDS in the standard model of floating-point arithmetic (trusted link: IEEE binary64 satisfies fl(a op b) = (a op b)(1+d), |d| <= 2^-53 barring overflow/underflow): |sum8 x - sum x| <= gamma_(n-1) sum|x|, dot within gamma_n sum|x_i y_i|, prod within gamma_n relative, for the exact 8-way unrolled association. Tied bit for bit to the Rust code on all lengths 0..40 and random lengths "
               "to 1e4 for every form, map and special value; exact element-wise oracle and worst-case gamma_n-bound oracles for the reductions (rounding bounds are "
               "checked, not proved)."),
         design="DESIGN.md §6 C04",
@@ -92,8 +92,7 @@ CLAIMED = {
               "unchanged iff the ridge-penalised score equations hold at mu = g^-1(X beta + offset); the six family tables (link, derivative, variance, deviance terms), "
               "Gaussian deviance = residual sum of squares and Gaussian fixed points = weighted ridge normal equations; `fit` returns Err iff not converged within the budget "
               "and on Ok the last two penalised deviances differ relatively by < tolerance; accessor formulas (dispersion, covariance = dispersion * inverse information, "
-              "standard errors, predict = inverse link of x.beta + offset, aic, bic); score, information, deviance and every iterate of the loop are invariant under any "
-              "permutation of the observations. PARTIAL: that the convergence test implies a small score, rounding, and solver correctness (hypothesis; C01) are not proved - "
+              "standard errors, predict = inverse link of x.beta + offset, aic, bic); score, information, deviance, every iterate of the loop and the whole `fit` result (status, coefficients, deviance, information; predictions permuted accordingly) are invariant under any permutation of the observations; with the proved solver correctness the fixed-point and Gaussian normal-equation theorems hold for the model's own `solve` on non-singular information matrices. PARTIAL: that the convergence test implies a small score, rounding, and solver correctness (hypothesis; C01) are not proved - "
               "they are decided per run by the bit-exact tie (all reply fields) plus a 50-digit mpmath stationarity/inference oracle."),
         design="DESIGN.md §6 C06",
         technique="Lean 4 proof (entry-wise sum algebra, fixed-point characterisation, induction over scoring iterations, permutation of Finset sums) + bit-exact correspondence"),
@@ -103,7 +102,7 @@ CLAIMED = {
               "actual doubles of the node/weight tables regenerated from the source on every run, its odd moments are exactly 0 and even moments up to degree 18 "
               "are within 1e-16 of 2/(d+1) (exact rational arithmetic on the decoded bit patterns); Romberg levels 1-3 are the trapezoid/Simpson/Boole rules with "
               "cubic and quintic exactness for every tolerance; sampled `trapezoid` equals the piecewise-linear integral, is additive and agrees with the dx form on "
-              "uniform grids. PARTIAL: Romberg exactness beyond 3 levels, the order-of-tolerance clause and all rounding are decided by the bit-exact tie plus an "
+              "uniform grids. Romberg for EVERY level count: the model computes the textbook tableau, is linear, antisymmetric in the limits and vanishes for a = b, never exits early at eps = 0, its column 0 is the trapezoid rule with 2^n panels, and with k levels it integrates every polynomial of degree <= 2k-1 exactly (Euler-Maclaurin for monomials from Mathlib's Bernoulli/Faulhaber results + Richardson elimination). PARTIAL: the order-of-tolerance clause for smooth integrands and all rounding are decided by the bit-exact tie plus an "
               "exact-rational/mpmath oracle (including the exactly decided stop rule), not by proof."),
         design="DESIGN.md §6 C07",
         technique="Lean 4 proof (Mathlib trapezoidal rule transfer, exact dyadic table arithmetic, ring identities) + translated tables + bit-exact correspondence"),
@@ -113,7 +112,7 @@ CLAIMED = {
               "covariance algorithms (two-pass, sample, repaired one-pass and online) equal the textbook (sample) covariance and agree; shift invariance and "
               "quadratic/bilinear scaling; argmin/argmax return the first index of an extremum (guard: data within the f64::MAX/MIN seeds, the out-of-guard behaviour "
               "is a separate theorem); min/max equal List.minimum/maximum on NaN-free input; Matrix argmin = (i / ncols, i % ncols); histogram centres are midpoints of "
-              "consecutive edges. PARTIAL: 'within the rounding bound of a stable algorithm' is decided by the bit-exact tie plus an exact-rational oracle with a "
+              "consecutive edges; rounding bounds in the standard model for both mean algorithms (mean within gamma_n, Welford mean ~ (n/2+6.5) u max|x|). PARTIAL: the rounding bound for variance / covariance is decided by the bit-exact tie plus an exact-rational oracle with a "
               "condition-number-scaled bound, not by proof."),
         design="DESIGN.md §6 C08",
         technique="Lean 4 proof (loop invariants by induction over the data list, field_simp/ring) + bit-exact correspondence + exact-rational oracle"),
